@@ -150,7 +150,7 @@ fn any_arg(r: &mut Rng) -> f32 {
 }
 
 pub fn arg_fuzz(ctx: &Ctx) -> Report {
-    let n = ctx.budget(40, 40_000, 4_000_000) as usize;
+    let n = ctx.budget(40, 200_000, 20_000_000) as usize;
     let shards = if ctx.tier == Tier::Small { 1 } else { 64 };
     par_shards(ctx, shards, |sh| {
         let mut rep = Report::new();
@@ -190,7 +190,7 @@ pub fn run(ctx: &Ctx) -> Report {
     stage("c17.adsr.random", adsr::random(ctx, want), &mut rep, t0);
     // every (fs, T) combination class: gate_on must reach sustain, gate_off must reach rest
     let t0 = std::time::Instant::now();
-    let n_plane = ctx.budget(10, 4_000, 200_000) as usize;
+    let n_plane = ctx.budget(10, 10_000, 1_000_000) as usize;
     let shards = if small { 1 } else { 64 };
     let r = par_shards(ctx, shards, |sh| {
         let mut rep = Report::new();
@@ -210,7 +210,7 @@ pub fn run(ctx: &Ctx) -> Report {
     stage("c17.lfo.random", lfo::random(ctx, want), &mut rep, t0);
     // MIDI: arbitrary bytes
     let t0 = std::time::Instant::now();
-    let n_midi = ctx.budget(10, 10_000, 1_000_000) as usize;
+    let n_midi = ctx.budget(10, 20_000, 2_000_000) as usize;
     let r = par_shards(ctx, shards, |sh| {
         let mut rep = Report::new();
         let mut r = Rng::derive(ctx.seed, "c17.midi", sh as u64);
